@@ -439,6 +439,12 @@ func build(tier string) []*vexp.Scenario {
 	if tier == "thorough" {
 		out = append(out, vexp.Split(16, func() *vexp.Scenario { return scenario(params{"first-contact", 3, 10, "all"}, b2) })...)
 	}
+	// two senders sharing one connection, one of them with frames of 64 KiB and more (whatever a frame is written with, nothing of
+	// another sender's frame may land inside it)
+	for _, size := range []int{65536, 70000} {
+		out = append(out, scenario(params{"two-senders", 2, size, "all"}, b1))
+		out = append(out, vexp.Fine(scenario(params{"two-senders", 1, size, "all"}, b1), "vivid/internal/remoting."))
+	}
 	for _, k := range []string{"two-senders", "both-ways", "ask", "idle-gap", "idle-gap-noretry"} {
 		for _, n := range []int{1, 2, 3} {
 			out = append(out, scenario(params{k, n, 10, "all"}, b1))
